@@ -15,7 +15,8 @@ CFG = dict(
     rigs=[dict(test="TestC09", timeout_quick=300, timeout_thorough=900),
           dict(test="TestC09Errors", timeout_quick=200, timeout_thorough=400),
           dict(test="TestC09Storm", timeout_quick=300, timeout_thorough=900)],
-    reason_text={"1": "the real client's observation differs from every outcome of the Gallina model (Model/Client.v, all orders of internal rules)",
+    reason_text={"11": "wedged: the scenario could not be run to its end - a goroutine of the client waits for a lock for ever; every call behind that lock hangs, also after the connection has failed",
+                 "1": "the real client's observation differs from every outcome of the Gallina model (Model/Client.v, all orders of internal rules)",
                  "3": "a unary call's result is not what the first delivered envelope carrying its id says",
                  "5": "fabricated success: a call reported a success whose body no delivered envelope with its id carried; or, after the "
                       "transport's read failure and without any trailer, a stream reported a message / a clean end (io.EOF) / a retried call succeeded",
